@@ -9,11 +9,16 @@ R4 unset map: every stored settable property has SLIVER_PROPERTY_TO_GRAPH[p] == 
 R5 element dispatch: each model element class uses sliver class, writer, reader and deep builder of its own kind,
    and set_property(p, None) unsets
 R6 deep dictionary: child keys written == keys read, children are converted recursively
+R9 deep graph writers: add_*_sliver call the nested child writers under no condition other than "the sliver has that container"
 """
 import ast
 
 from ..core import AnalysisError, Unfoldable, norm, loc, walk_no_nested, attr_chain, kwarg, call_name
 from ..codecs import check_dict_codecs
+from ..normalize import inline, builders, comp_builder, local_env, expand, canon, conjuncts, _enclosing
+from ..core import func_params
+from ..cfg import CFG
+from .. import flow
 
 APG = 'fim.graph.abc_property_graph:ABCPropertyGraph'
 
@@ -373,6 +378,7 @@ def run(prog, rep):
             fn = ecls.methods.get(mname)
             if fn is None:
                 raise AnalysisError(f'{ecls.qual}.{mname} vanished')
+            fn = inline(prog, ecls, fn)
             fq = f'{ecls.name}.{mname}'
             used_w = set()
             used_r = set()
@@ -404,14 +410,8 @@ def run(prog, rep):
                               f'{fq} must use {DEEP_BUILDERS[kind]}; found {sorted(used_b)}')
             if mname == 'set_property':
                 # `if pval is None: self.unset_property(pname); return`
-                ok = False
-                for n in fn.body:
-                    if isinstance(n, ast.If) and isinstance(n.test, ast.Compare) and \
-                            isinstance(n.test.ops[0], ast.Is) and isinstance(n.test.comparators[0], ast.Constant) \
-                            and n.test.comparators[0].value is None:
-                        calls = [call_name(c) for c in ast.walk(n) if isinstance(c, ast.Call)]
-                        rets = [x for x in n.body if isinstance(x, ast.Return)]
-                        ok = 'unset_property' in calls and bool(rets)
+                # on every path on which the value is None, unset_property is called and no writer is reached
+                ok = unset_on_none(fn)
                 if not ok:
                     rep.violation('R5', loc(em, fn), fq, 'no unset on None',
                                   f'{fq}(p, None) no longer unsets the property and returns')
@@ -466,11 +466,19 @@ def run(prog, rep):
                                       f'{fqn} addresses sliver property {lit!r} but {scls.name} has no {pref}{lit}: the access '
                                       f'raises AttributeError instead of storing / returning the value')
 
+    rep.rule('R9', 'deep writers store the children of a sliver whenever it carries them', floor=4)
+    check_deep_writers(prog, rep, 'R9')
+
     # R6 deep dictionary
     s2d = apg.methods.get('sliver_to_dict')
     if s2d is None:
         raise AnalysisError('sliver_to_dict vanished')
     written = {}   # sliver class name -> set(keys)
+    rets = [r.value.id for r in walk_no_nested(s2d) if isinstance(r, ast.Return) and isinstance(r.value, ast.Name)]
+    if not rets:
+        raise AnalysisError('sliver_to_dict: returned dictionary not found')
+    dvar = rets[-1]
+    blds = builders(s2d)
     for n in ast.walk(s2d):
         if isinstance(n, ast.If):
             tnames = [x.id for x in ast.walk(n.test) if isinstance(x, ast.Name) and x.id.endswith('Sliver')]
@@ -480,18 +488,22 @@ def run(prog, rep):
             for st in n.body:
                 for a in ast.walk(st):
                     if isinstance(a, ast.Assign) and isinstance(a.targets[0], ast.Subscript) and \
-                            isinstance(a.targets[0].value, ast.Name) and a.targets[0].value.id == 'd' and \
+                            isinstance(a.targets[0].value, ast.Name) and a.targets[0].value.id == dvar and \
                             isinstance(a.targets[0].slice, ast.Constant):
                         keys.add(a.targets[0].slice.value)
-                # children must be converted recursively
-                for loop in [x for x in ast.walk(st) if isinstance(x, ast.For)]:
-                    for c in ast.walk(loop):
-                        if isinstance(c, ast.Call) and call_name(c) == 'append' and c.args:
-                            inner = c.args[0]
+                        # children must be converted recursively: every element put under the key is sliver_to_dict(child)
+                        v = a.value
+                        elts = []
+                        cb = comp_builder('_', v)
+                        if cb is not None:
+                            elts.append(cb.elt)
+                        elif isinstance(v, ast.Name):
+                            elts.extend(b.elt for b in blds.get(v.id, []) if any(x is b.node for x in ast.walk(n)))
+                        for inner in elts:
                             rec = isinstance(inner, ast.Call) and call_name(inner) == 'sliver_to_dict'
-                            rep.instance('R6', f'sliver_to_dict[{",".join(tnames)}]: child converted by {norm(inner, 70)}')
+                            rep.instance('R6', f'sliver_to_dict[{",".join(tnames)}]: child under {a.targets[0].slice.value!r} converted by {norm(inner, 70)}')
                             if not rec:
-                                rep.violation('R6', loc(mod, c), 'ABCPropertyGraph.sliver_to_dict',
+                                rep.violation('R6', loc(mod, inner), 'ABCPropertyGraph.sliver_to_dict',
                                               f'{",".join(tnames)}: child appended as {norm(inner, 70)}',
                                               'children of a sliver must be converted with sliver_to_dict (recursively); '
                                               'a flat property dict drops their own children')
@@ -510,11 +522,15 @@ def run(prog, rep):
         if fn is None:
             raise AnalysisError(f'{rfn} vanished')
         keys_read = set()
+        dparams = set(func_params(fn))
         for n in ast.walk(fn):
             if isinstance(n, ast.Call) and isinstance(n.func, ast.Attribute) and n.func.attr == 'get' and n.args \
                     and isinstance(n.args[0], ast.Constant) and isinstance(n.args[0].value, str) \
-                    and isinstance(n.func.value, ast.Name) and n.func.value.id in ('props', 'd'):
+                    and isinstance(n.func.value, ast.Name) and n.func.value.id in dparams:
                 keys_read.add(n.args[0].value)
+            elif isinstance(n, ast.Subscript) and isinstance(n.ctx, ast.Load) and isinstance(n.value, ast.Name) and n.value.id in dparams \
+                    and isinstance(n.slice, ast.Constant) and isinstance(n.slice.value, str):
+                keys_read.add(n.slice.value)
         w = written.get(sname, set())
         rep.instance('R6', f'{sname}: keys written {sorted(w)} read by {rfn} {sorted(keys_read)}')
         if w != keys_read:
@@ -528,6 +544,67 @@ def run(prog, rep):
             if child_builder.get(k) and child_builder[k] not in called:
                 rep.violation('R6', loc(mod, fn), f'ABCPropertyGraph.{rfn}', f'{sname}: {k} not rebuilt with {child_builder[k]}',
                               f'children under key {k!r} must be rebuilt with {child_builder[k]}')
+
+
+def unset_on_none(fn):
+    """set_property(p, None) unsets: there is a test `<value param> is None` whose true branch calls unset_property and
+    from which no sliver writer call is reachable (CFG)."""
+    cfg = CFG(fn)
+    params = func_params(fn)
+    for t in cfg.nodes:
+        if t.kind != 'test' or t.tag != 'if':
+            continue
+        c = canon(t.ast)
+        if not (isinstance(c, ast.Compare) and len(c.ops) == 1 and isinstance(c.ops[0], (ast.Is, ast.Eq)) and
+                isinstance(c.comparators[0], ast.Constant) and c.comparators[0].value is None and
+                isinstance(c.left, ast.Name) and c.left.id in params):
+            continue
+        # explore from the true edge
+        seen, stack, unset, writes = set(), [s for s, ek in t.succ if ek == 't'], False, False
+        while stack:
+            n = stack.pop()
+            if n.id in seen:
+                continue
+            seen.add(n.id)
+            calls = []
+            if n.ast is not None and n.kind in ('stmt', 'test', 'iter') and not (n.kind == 'test' and n.tag == 'for'):
+                calls = [call_name(x) for x in walk_no_nested(n.ast) if isinstance(x, ast.Call)]
+            if 'unset_property' in calls:
+                unset = True
+            if any(x and (x.endswith('_to_graph_properties_dict') or x in ('update_node_properties', 'update_node_property')) for x in calls):
+                writes = True
+            for s_, ek in n.succ:
+                if ek != 'x':
+                    stack.append(s_)
+        if unset and not writes:
+            return True
+    return False
+
+
+def check_deep_writers(prog, rep, rule):
+    """R9: the add_*_sliver writers store the children a sliver carries whenever it carries them: a nested writer call may be
+    conditional only on the child container of the sliver itself (is not None / non-empty), never on the parent id or on
+    anything else - otherwise some slivers lose their children on the way into the graph."""
+    apg = prog.cls(APG)
+    writers = {n: f for n, f in apg.methods.items() if n.startswith('add_') and n.endswith('_sliver')}
+    for name, fn0 in sorted(writers.items()):
+        fn = inline(prog, apg, fn0)
+        env = local_env(fn)
+        params = func_params(fn)
+        for c in walk_no_nested(fn):
+            if not (isinstance(c, ast.Call) and call_name(c) in writers and call_name(c) != name):
+                continue
+            gens, conds = _enclosing(c, fn)
+            sliver_params = [p for p in params if p not in ('self', 'parent_node_id')]
+            rep.instance(rule, f'{name} -> {call_name(c)} under {[norm(x, 50) for x in conds]}')
+            for cond in conds:
+                for cj in conjuncts(canon(expand(cond, env))):
+                    names = {n.id for n in ast.walk(cj) if isinstance(n, ast.Name)} - {'len', 'isinstance', 'list', 'dict'}
+                    if not names or not names <= set(sliver_params):
+                        rep.violation(rule, loc(apg.module, c), f'ABCPropertyGraph.{name}', f'{call_name(c)} only when {norm(cj, 70)}',
+                                      f'{name} writes the children of the sliver ({call_name(c)}) only when "{norm(cj, 70)}" holds: a sliver '
+                                      f'that carries children but does not satisfy that condition is stored without them and '
+                                      f'comes back from the graph incomplete')
 
 
 APGF = 'fim/graph/abc_property_graph.py'
